@@ -35,8 +35,11 @@ VERIF = Path(__file__).resolve().parent.parent
 REPO = Path(os.environ.get("VERIF_REPO", "/repo"))
 CACHE = VERIF / ".cache"
 SPEC = VERIF / "spec"
-EVIDENCE = VERIF / "evidence"
-REPLAYS = VERIF / "replays"
+# VERIF_OUT redirects evidence and replay artifacts (used when the machinery is tried against a
+# scratch worktree carrying a seeded change, so that the committed evidence is not overwritten)
+_OUT = Path(os.environ["VERIF_OUT"]) if os.environ.get("VERIF_OUT") else VERIF
+EVIDENCE = _OUT / "evidence"
+REPLAYS = _OUT / "replays"
 TOOLCHAIN = Path("/root/go/pkg/mod/golang.org/toolchain@v0.0.1-go1.26.2.linux-amd64")
 FALLBACK_TOOLCHAIN = Path("/opt/veriftools/go1.26.8")
 TLA_JAR = "/opt/veriftools/tla/tla2tools.jar"
@@ -582,7 +585,7 @@ class Check:
 
     # -- finish
     def finish(self) -> int:
-        EVIDENCE.mkdir(exist_ok=True)
+        EVIDENCE.mkdir(parents=True, exist_ok=True)
         cov = {
             "states": self.states,
             "transitions": self.transitions,
